@@ -126,17 +126,23 @@ std::string c_save_raw(NifFile& nif) {
 	return os.str();
 }
 
-// @skin_sse / @skin_le / @skin_fo4: a skinned shape made with CreateShapeFromData + CreateSkinning
+// @skin_sse / @skin_le / @skin_fo4 / @skin_ob: a skinned shape made with CreateShapeFromData + CreateSkinning;
+// @skin2_*: a second skinned shape with a single bone (so that "the skin data of the other shape" is an
+// in-range block of the right type with FEWER bones)
 bool c_synth_file(const std::string& name, std::string& out) {
 	NifFile nif;
 	NiVersion ver;
-	if (name == "@skin_sse")
+	std::string v = name.substr(name.find('_') == std::string::npos ? 0 : name.find('_') + 1);
+	bool two = name.rfind("@skin2_", 0) == 0;
+	if (!two && name.rfind("@skin_", 0) != 0)
+		return false;
+	if (v == "sse")
 		ver = NiVersion::getSSE();
-	else if (name == "@skin_le")
+	else if (v == "le")
 		ver = NiVersion::getSK();
-	else if (name == "@skin_fo4")
+	else if (v == "fo4")
 		ver = NiVersion::getFO4();
-	else if (name == "@skin_ob")
+	else if (v == "ob")
 		ver = NiVersion::getOB();
 	else
 		return false;
@@ -145,19 +151,34 @@ bool c_synth_file(const std::string& name, std::string& out) {
 	std::vector<Triangle> tris = {Triangle(0, 1, 2), Triangle(1, 3, 2), Triangle(0, 2, 4)};
 	std::vector<Vector2> uvs = {{0, 0}, {1, 0}, {0, 1}, {1, 1}, {0.5f, 0.5f}};
 	std::vector<Vector3> norms(5, Vector3(0, 0, 1));
-	auto shape = nif.CreateShapeFromData("Shape", &verts, &tris, &uvs, &norms);
 	MatTransform id;
 	auto b0 = nif.AddNode("Bone0", id);
 	auto b1 = nif.AddNode("Bone1", id, b0);
+	auto b2 = nif.AddNode("Bone2", id, b1);
+	auto shape = nif.CreateShapeFromData("Shape", &verts, &tris, &uvs, &norms);
 	if (shape) {
 		nif.CreateSkinning(shape);
-		std::vector<int> ids = {static_cast<int>(nif.GetBlockID(b0)), static_cast<int>(nif.GetBlockID(b1))};
+		std::vector<int> ids = {static_cast<int>(nif.GetBlockID(b0)), static_cast<int>(nif.GetBlockID(b1)),
+								static_cast<int>(nif.GetBlockID(b2))};
 		nif.SetShapeBoneIDList(shape, ids);
 		std::unordered_map<uint16_t, float> w0 = {{0, 1.0f}, {1, 0.5f}, {2, 0.5f}};
-		std::unordered_map<uint16_t, float> w1 = {{1, 0.5f}, {2, 0.5f}, {3, 1.0f}, {4, 1.0f}};
+		std::unordered_map<uint16_t, float> w1 = {{1, 0.5f}, {2, 0.5f}, {3, 1.0f}};
+		std::unordered_map<uint16_t, float> w2 = {{4, 1.0f}};
 		nif.SetShapeBoneWeights("Shape", 0, w0);
 		nif.SetShapeBoneWeights("Shape", 1, w1);
+		nif.SetShapeBoneWeights("Shape", 2, w2);
 		nif.UpdateSkinPartitions(shape);
+	}
+	if (two) {
+		auto shape2 = nif.CreateShapeFromData("Shape2", &verts, &tris, &uvs, &norms);
+		if (shape2) {
+			nif.CreateSkinning(shape2);
+			std::vector<int> ids = {static_cast<int>(nif.GetBlockID(b0))};
+			nif.SetShapeBoneIDList(shape2, ids);
+			std::unordered_map<uint16_t, float> w0 = {{0, 1.0f}, {1, 1.0f}, {2, 1.0f}, {3, 1.0f}, {4, 1.0f}};
+			nif.SetShapeBoneWeights("Shape2", 0, w0);
+			nif.UpdateSkinPartitions(shape2);
+		}
 	}
 	out = c_save_raw(nif);
 	return true;
@@ -374,8 +395,12 @@ std::string c_dump_block(NifFile& nif, NiObject* b) {
 		c_field(os, "sd", c_ref(niskin->dataRef.index));
 		c_field(os, "sp", c_ref(niskin->skinPartitionRef.index));
 	}
-	if (bsskin)
+	if (bsskin) {
 		c_field(os, "sd", c_ref(bsskin->dataRef.index));
+		c_field(os, "bn", std::to_string(bsskin->boneRefs.GetSize())); // bones of the shape
+	}
+	if (auto bd = dynamic_cast<BSSkinBoneData*>(b))
+		c_field(os, "bx", std::to_string(bd->boneXforms.size())); // per-bone records it holds
 	if (shader) {
 		auto ts = shader->TextureSetRef();
 		c_field(os, "ts", ts ? c_ref(ts->index) : std::string("n"));
@@ -435,7 +460,7 @@ struct CHash {
 	CHash() { h = 7; }
 };
 
-std::string c_queries(NifFile& nif, const std::set<uint32_t>& skip_ntg, bool skip_all_ntg, bool skip_bw) {
+std::string c_queries(NifFile& nif, const std::set<uint32_t>& skip_ntg, bool skip_all_ntg, bool skip_bw, bool skip_bb) {
 	std::ostringstream os;
 	auto& hdr = nif.hdr;
 	uint32_t n = hdr.GetNumBlocks();
@@ -566,7 +591,7 @@ std::string c_queries(NifFile& nif, const std::set<uint32_t>& skip_ntg, bool ski
 			if (nif.GetShapeTransformSkinToBone(s, bi, t)) ++xf;
 			if (nif.GetShapeBoneTransform(s, bi, t)) ++xf;
 			BoundingSphere bs;
-			if (nif.GetShapeBoneBounds(s, bi, bs)) ++xf;
+			if (!skip_bb && nif.GetShapeBoneBounds(s, bi, bs)) ++xf;
 		}
 		for (auto& bn : bl) {
 			if (nif.GetShapeTransformSkinToBone(s, bn, t)) ++xf;
@@ -689,7 +714,7 @@ std::string c_battery(NifFile& nif, const Case& c) {
 	for (auto& s : split(c.get("skipntg"), ','))
 		skip_ntg.insert(static_cast<uint32_t>(std::strtoul(s.c_str(), nullptr, 10)));
 	os << " n=" << nif.hdr.GetNumBlocks();
-	os << c_queries(nif, skip_ntg, c_has(skip, "ntg"), c_has(skip, "bw"));
+	os << c_queries(nif, skip_ntg, c_has(skip, "ntg"), c_has(skip, "bw"), c_has(skip, "bb"));
 	// DeleteUnreferencedBlocks on a copy
 	{
 		NifFile cp(nif);
@@ -910,7 +935,7 @@ int oracle_corrupt(int, char**) {
 			}
 		}
 		else {
-			alarm((c.op == "ntg" || c.op == "synthntg") ? std::min(limit, 2u) : limit);
+			alarm(limit);
 			NifFile nif;
 			std::string err;
 			int rc = 0;
@@ -933,6 +958,7 @@ int oracle_corrupt(int, char**) {
 				uint32_t id = static_cast<uint32_t>(c.geti("node"));
 				auto node = nif.hdr.GetBlock<NiNode>(id);
 				MatTransform t;
+				alarm(std::min(limit, 2u)); // the walk itself takes microseconds; loading was done under the general limit
 				bool ok = node ? nif.GetNodeTransformToGlobal(node->name.get(), t) : false;
 				os << "load=0 ntg=" << (ok ? 1 : 0);
 			}
